@@ -169,4 +169,29 @@ theorem gapKindForDates_eq (y : Int) (m : Month) (y' : Int) (m' : Month) (hy : -
   · simp (disch := omega) only [i32_some, Option.bind_some]
     split <;> rfl
 
+/-- inner.rs `cmp_int_range`: none of its `debug_assert!`s fires when `lower ≤ upper` (what
+`ReformGap::cmp_year` passes), and the result is the pure model's -/
+theorem cmpIntRange_eq (value lower upper : Int) (h : lower ≤ upper) :
+    cmpIntRange value lower upper = some (JV.cmpIntRange value lower upper) := by
+  simp only [cmpIntRange, JV.cmpIntRange, pure]
+  have h' : (decide (lower ≤ upper)) = true := by simpa using h
+  simp only [h', Bool.not_true, Bool.false_eq_true, if_false]
+  by_cases h1 : value < lower
+  · simp [h1]
+  · by_cases h2 : lower = value
+    · subst h2
+      by_cases h3 : lower < upper
+      · simp [h3]
+      · have : lower = upper := by omega
+        simp [h3, this]
+    · have h4 : lower < value := by omega
+      by_cases h5 : value < upper
+      · simp [h1, h2, h4, h5]
+      · by_cases h6 : value = upper
+        · subst h6
+          have a3 : ¬ value ≤ lower := by omega
+          simp [h1, h2, a3]
+        · have : upper < value := by omega
+          simp [h1, h2, h4, h5, h6, this]
+
 end JV.Chk
